@@ -362,6 +362,9 @@ func main() {
 				checkDecode(r, c, text, shape)
 			}
 		}
+		if r.Replay == nil {
+			ring.Stress(r, r.CaseAlways("stress", 0), 8, 2)
+		}
 		r.Floor(int64(r.Pick(20000, 400000)), 2000)
 	})
 }
